@@ -1251,6 +1251,14 @@ class WireWorld(World):
         # re-encode what was accepted and decode it again
         if ok:
             self._reencode(ctx, i, where, msg, dec)
+        # the receiver owns what it decoded: an application that adds to the annotations of THIS message (Pyro's own client
+        # code does, when it forwards a blob) must not change what any other message decodes to
+        try:
+            if isinstance(msg.annotations, dict) and len(msg.annotations) < 3:
+                msg.annotations["Z%03d" % (i % 1000)] = b"written into a decoded message"
+                ctx.probe("decoded_annotations_written")
+        except Exception:  # noqa
+            pass
         return ok
 
     def _clean_probes(self, ctx, spec, dec, rf):
@@ -1322,6 +1330,21 @@ class WireWorld(World):
         ctx.probe("direct_decode")
         rk, rf = ref_parse(S, 0, rmax, exact=True)
         raw_hex = S[:200].hex() + ("..." if len(S) > 200 else "")
+        if rk == "msg" and i % 3 == 0:
+            # the same bytes cut differently: a "header" of more than 40 bytes is not a header (the two arguments must tile
+            # the message exactly: 40 header bytes, then annotations + payload)
+            k = 1 + (i // 3) % 9
+            for hdr, body in ((S[:40 + k], S[40 + k:]), (S[:40] + b"\0" * k, S[40:]), (S, b"")):
+                if len(hdr) == 40:
+                    continue
+                try:
+                    m2 = PR.ReceivingMessage(hdr, body)
+                except Exception:  # noqa
+                    ctx.probe("overlong_header_rejected")
+                    continue
+                ctx.violate("malformed-accepted", "overlong-header", "case %d direct: ReceivingMessage accepted a header argument of %d "
+                            "bytes (type %r seq %r, %d payload bytes): %s" % (i, len(hdr), m2.type, m2.seq, len(m2.data or b""), raw_hex))
+                return
         try:
             msg = PR.ReceivingMessage(S[:40], S[40:])
         except Exception as x:  # noqa
